@@ -169,6 +169,7 @@ def choose_one(rng, H, sh, profile):
     # ---- local API -------------------------------------------------------------------------
     w((3, lambda: {'op': 'RR', 'data': sh.data(rng, rng.choice([0, 1, 2]))}))
     w((1, lambda: {'op': 'FNF', 'data': sh.data(rng, 1)}))
+    w((0.4, lambda: {'op': 'OWC'}))
     w((1, lambda: {'op': 'MP', 'data': sh.fresh(1)}))
     def insub(s):
         # the application's subscriber asks for more, or cancels, inside on_subscribe
